@@ -296,6 +296,57 @@ func genItems(r *run.Rand, maxDepth int) []*Node {
 	return items
 }
 
+// genCtrlLit: a literal containing at least one newline / tab / carriage
+// return (so it is always quoted), otherwise word characters and blanks.
+func genCtrlLit(r *run.Rand) string {
+	n := r.Range(1, 8)
+	rs := make([]rune, n)
+	has := false
+	for i := range rs {
+		switch r.Intn(5) {
+		case 0, 1:
+			rs[i] = []rune{'\n', '\t', '\r'}[r.Intn(3)]
+			has = true
+		case 2:
+			rs[i] = []rune{' ', 'n', 't', 'r', 'é'}[r.Intn(5)]
+		default:
+			rs[i] = rune(asciiWord[r.Intn(len(asciiWord))])
+		}
+	}
+	if !has {
+		rs[r.Intn(n)] = []rune{'\n', '\t', '\r'}[r.Intn(3)]
+	}
+	return string(rs)
+}
+
+// genCtrlCall: a probe call whose arguments are quoted literals with control
+// characters, mixed with the other leaf kinds and (sometimes) one nested call
+// of the same sort.
+func genCtrlCall(r *run.Rand) *Node {
+	var mk func(depth int) *Node
+	mk = func(depth int) *Node {
+		n := &Node{K: "call", T: fnames[r.Intn(len(fnames))]}
+		na := r.Range(1, 3)
+		ctrl := r.Intn(na)
+		for i := 0; i < na; i++ {
+			switch x := r.Intn(8); {
+			case i == ctrl || x < 3:
+				n.A = append(n.A, &Node{K: "lit", T: genCtrlLit(r)})
+			case x == 3:
+				n.A = append(n.A, &Node{K: "match", N: r.Intn(4)})
+			case x == 4:
+				n.A = append(n.A, &Node{K: "lit", T: ""})
+			case x == 5 && depth < 2:
+				n.A = append(n.A, mk(depth+1))
+			default:
+				n.A = append(n.A, &Node{K: "lit", T: genWord(r)})
+			}
+		}
+		return n
+	}
+	return mk(1)
+}
+
 // ---------------------------------------------------------------- malformed mutations
 
 // collect returns every statement node (match/key/call/empty) and every call
@@ -436,6 +487,14 @@ func denseTrees() [][]*Node {
 			its = append(its, call("p1", lit("q r"), k("k")))
 			out = append(out, its)
 		}
+	}
+	// newline / tab / carriage return inside quoted literals at call depth 1..4
+	for _, ctl := range []string{"a\nb", "\t", "l1\r\nl2"} {
+		inner := call("p1", lit(ctl), m(1))
+		out = append(out, []*Node{inner.clone()})
+		out = append(out, []*Node{call("p0", inner.clone(), lit("c"))})
+		out = append(out, []*Node{text("x"), call("p0", call("p2", inner.clone())), text("y")})
+		out = append(out, []*Node{call("F", lit("1"), call("p0", lit("2"), call("p2", inner.clone())))})
 	}
 	out = append(out, []*Node{m(0), m(1), k("a"), k("b")})
 	out = append(out, []*Node{text("The sum is "), call("sum_i", m(0), m(1), k("key"))})
